@@ -6,6 +6,11 @@ Import ListNotations.
 From Verif Require Import Base.PyValue Model.Compile Proofs.CompileProofs Model.Link Proofs.LinkProofs.
 From Verif Require Import Model.WF Proofs.WFProofs Model.Locate Proofs.LocateProofs.
 From Verif Require Model.RegistrySnapshot Model.Exec Model.Typing.
+(* the tie by translation (last section of this file); required HERE because coqdep stops reading this file at the
+   string "count( * )" below (it takes the characters after the parenthesis for the start of a comment) and would not
+   record the dependencies on the generated files; imported mid-file, where the names are wanted *)
+From Verif Require Model.PyMini Model.PrimsApi Model.PrimsCompiler Gen.SrcLookup Proofs.SrcLookup Gen.SrcCompiler
+  Proofs.SrcCompiler.
 Open Scope string_scope.
 Open Scope list_scope.
 Open Scope nat_scope.
@@ -269,8 +274,7 @@ Proof. vm_compute. reflexivity. Qed.
    beanquery.types / beanquery.compiler (harness/vf/src_compiler.py); the theorems below say that interpreting them
    computes the functions of Model/Compile.v the theorems above are stated over.  Primitive semantics and encodings:
    Model/PrimsCompiler.v (compiled nodes are references into a heap [tbl]; datatypes are their snapshot names). *)
-From Verif Require Import Model.PyMini Model.PrimsApi Model.PrimsCompiler.
-From Verif Require Gen.SrcLookup Proofs.SrcLookup.
+Import Verif.Model.PyMini Verif.Model.PrimsApi Verif.Model.PrimsCompiler.
 
 (* types.function_lookup: for EVERY registry, name and operand list the translated search (product of the operands'
    bases outermost, overloads in registry order innermost, AnyType.__eq__ on the declared types) returns exactly the
@@ -318,4 +322,51 @@ Proof.
                         | _ => PNone
                         end).
   intros t. cbn. now rewrite Proofs.SrcLookup.unzs_zs.
+Qed.
+
+(* Compiler._compile_order_by = Compile.compile_order_by, for EVERY list of compiled targets (nodes of the heap), every
+   ORDER BY list (positions, bare column names, other expressions; [key_ok]: an expression node is a record of a class
+   other than ast.Column / int) and every behaviour [compf] of `self._compile` on the keys: the translated method raises
+   the model's error, or returns (the hidden targets the model appends, the model's order_spec).  So: a position is
+   checked against the number of VISIBLE targets; a name resolves to the LAST target of that name; any other key is
+   compiled, checked by check_aggregates, reconciled with the FIRST equal target expression (visible or hidden, EvalNode
+   equality) or appended as a hidden target whose aggregate flag is is_aggregate(expression); the direction is copied.
+   `self._compile`, `check_aggregates`, `is_aggregate` are opaque callables assumed to return the model's values. *)
+Theorem C05_source_compile_order_by :
+  forall (call_ref : nat -> list pv -> pv) (tbl : nat -> Compile.cnode) (kids : nat -> list nat)
+         (mro : string -> list string) (msg : string -> list pv -> pv)
+         (compf : pv -> Compile.result nat Compile.cerr) (kc kchk kagg : nat),
+  ref_of Verif.Gen.SrcCompiler.refs "beanquery.compiler.check_aggregates" = Some kchk ->
+  ref_of Verif.Gen.SrcCompiler.refs "beanquery.compiler.is_aggregate" = Some kagg ->
+  (forall a, call_ref kc [a] = Verif.Proofs.SrcCompiler.enc_rid (compf a)) ->
+  (forall i, call_ref kchk [nref i] =
+             match Compile.check_aggregates (tbl i) with Some e => PV (VErr (CompErr e)) | None => PNone end) ->
+  (forall i, call_ref kagg [nref i] = PBool (Compile.has_agg (tbl i))) ->
+  forall (pts0 : list ptarget) (ord : list (Verif.Proofs.SrcCompiler.akey * bool)) (flds : env),
+  lookup "_compile" flds = Some (PRef kc) -> Forall Verif.Proofs.SrcCompiler.key_ok (map fst ord) ->
+  match Compile.compile_order_by (map (Verif.Proofs.SrcCompiler.T tbl) pts0)
+                                 (Verif.Proofs.SrcCompiler.krefs tbl compf ord) with
+  | Compile.Err e =>
+      call_method call_ref (prim_compiler tbl kids mro msg) Verif.Gen.SrcCompiler.compile_order_by flds
+        [PList (map Verif.Proofs.SrcCompiler.enc_oitem ord); PList (map enc_target pts0)] = Exc (CompErr e)
+  | Compile.Ok (ts, spec) =>
+      exists new : list ptarget,
+        call_method call_ref (prim_compiler tbl kids mro msg) Verif.Gen.SrcCompiler.compile_order_by flds
+          [PList (map Verif.Proofs.SrcCompiler.enc_oitem ord); PList (map enc_target pts0)] =
+        PyMini.Ok (flds, PTuple [PList (map enc_target new); Verif.Proofs.SrcCompiler.enc_ospec spec])
+        /\ map (Verif.Proofs.SrcCompiler.T tbl) new = skipn (length pts0) ts
+  end.
+Proof. exact Verif.Proofs.SrcCompiler.order_by_source. Qed.
+Print Assumptions C05_source_compile_order_by.
+
+Example C05_source_order_by_hypotheses_satisfiable :
+  let tbl := fun _ : nat => Compile.NCol "a" "int" in
+  let compf := fun _ : pv => @Compile.Ok nat Compile.cerr 0%nat in
+  exists call_ref : nat -> list pv -> pv,
+    (forall a, call_ref 9%nat [a] = Verif.Proofs.SrcCompiler.enc_rid (compf a))
+    /\ (forall i, call_ref 0%nat [nref i] =
+                  match Compile.check_aggregates (tbl i) with Some e => PV (VErr (CompErr e)) | None => PNone end)
+    /\ (forall i, call_ref 1%nat [nref i] = PBool (Compile.has_agg (tbl i))).
+Proof.
+  exists (fun k _ => match k with 0%nat => PNone | 1%nat => PBool false | _ => nref 0 end). repeat split.
 Qed.
